@@ -11,13 +11,14 @@ CONSTANTS MaxDecls,     \* program length bound
           MinDecls,     \* a program is not finished before it has this many declarations
           BlockBudget,  \* a top-level block is closed after about this many declarations
           CallsOnly,    \* TRUE: programs are call graphs only (applications A, B, C with endpoints e1, e2)
+          TypesOnly,    \* TRUE: applications contain type declarations only (data models)
           WithPlans     \* TRUE: also print file-partition plans for the finished program (C04)
 
 VARIABLES st, prog, done
 gvars == <<st, prog, done>>
 
 Apps == IF CallsOnly THEN {"A", "B", "C"} ELSE IF Rich THEN {"A", "B", "NS :: C"} ELSE {"A", "B"}
-TypesOf(app) == IF ~Rich THEN {"T"} ELSE IF app = "A" THEN {"T", "U"} ELSE IF app = "B" THEN {"W", "V"} ELSE {"X", "Y"}
+TypesOf(app) == IF ~Rich THEN {"T"} ELSE IF TypesOnly /\ app = "A" THEN {"T", "U", "M", "Z"} ELSE IF app = "A" THEN {"T", "U"} ELSE IF app = "B" THEN {"W", "V"} ELSE {"X", "Y"}
 FieldNames == IF Rich THEN {"a", "b", "c", "d", "e", "x"} ELSE {"a"}
 EpNames == IF CallsOnly THEN {"e1", "e2"} ELSE IF Rich THEN {"Ep", "Op", "Get Thing"} ELSE {"Ep"}
 Texts == IF Rich THEN {"do it", "check stock", "validate the order", "done"} ELSE {"do it"}
@@ -51,7 +52,8 @@ RefShapes(app) == {[p |-> "", ref |-> r, size |-> <<>>, opt |-> o, wrap |-> w] :
                      r \in (IF Rich THEN Refs(app) ELSE {<<"", "T">>}), o \in Opts, w \in Wraps}
 \* wrapped two-part references and aliases of them are excluded here and covered by a dedicated
 \* probe (the compiler resolves them differently from plain fields, see known findings)
-Shapes(app) == PrimShapesOK \cup RefShapes(app)
+Shapes(app) == IF TypesOnly THEN {s \in PrimShapesOK \cup RefShapes(app) : ~(s.wrap # "" /\ s.p = "" /\ Len(s.ref) > 2)}
+               ELSE PrimShapesOK \cup RefShapes(app)
 
 NoPos == [file |-> "", line |-> 0, col |-> 0]
 D0 == [pos |-> NoPos, tags |-> <<>>, attrs |-> <<>>]
@@ -72,7 +74,14 @@ Groups ==
        a \in Pick(Apps), l \in Pick(IF Rich THEN {"", "Long Name"} ELSE {""}), t \in Pick(TagSets), at \in Pick(AttrSets)}}
   ELSE LET fr == Top(st) IN
   CASE fr.k = "app" ->
-       IF CallsOnly THEN
+       IF TypesOnly THEN
+       { {[k |-> "type", name |-> t, kind |-> kd, tags |-> <<>>, attrs |-> <<>>, pos |-> NoPos] :
+            t \in PickN(TypesOf(IF fr.app = "NS :: C" THEN "C" ELSE fr.app), 3), kd \in Pick({"tuple", "relation"})},
+         {[k |-> "type", name |-> "E", kind |-> "enum", tags |-> <<>>, attrs |-> <<>>, pos |-> NoPos]},
+         {[k |-> "alias", name |-> "Al", sh |-> sh, pos |-> NoPos] :
+            sh \in Pick({s \in Shapes(fr.app) : ~(s.p = "" /\ Len(s.ref) > 2) /\ ~s.opt /\ s.size = <<>>})},
+         {[k |-> "end"]} }
+       ELSE IF CallsOnly THEN
        { {[k |-> "ep", name |-> e, long |-> "", params |-> <<>>, tags |-> <<>>, attrs |-> <<>>, pos |-> NoPos] : e \in PickN(EpNames, 2)},
          {[k |-> "end"]} }
        ELSE
